@@ -146,6 +146,16 @@ class PyBuiltin:
     name: str
 
 
+class Native:
+    """A callable supplied by a contract (e.g. the function under differentiation): ``fn(it, args, kwargs)``."""
+
+    def __init__(self, fn, label="native"):
+        self.fn, self.label = fn, label
+
+    def __repr__(self):
+        return f"<native {self.label}>"
+
+
 class Opaque:
     """A value the interpreter carries around but knows nothing about."""
 
@@ -414,6 +424,8 @@ class Interp:
             return self.instantiate(f, args, kwargs)
         if isinstance(f, SymObj):
             return self.call_method(f, "__call__", args, kwargs, node)
+        if isinstance(f, Native):
+            return f.fn(self, args, kwargs)
         if callable(f):       # python-level bound methods of lists/dicts, registry callables
             return f(*args, **kwargs)
         raise Undecided(f"call of {f!r}")
